@@ -442,7 +442,81 @@ def execute(spec, cnt=None):
     import dask
 
     with dask.config.set(scheduler="synchronous"):
-        return _execute(spec, cnt)
+        v, outcomes = _execute(spec, cnt)
+        if v is None and spec.get("cold") and not spec.get("warn") and not os.environ.get("XSIM_COLD_CHILD"):
+            v = _cold_check(spec, cnt)
+        return v, outcomes
+
+
+def cold_child(req):
+    """Runs in a fresh interpreter (check.py c18-cold).  mode "count": line events of the first call.
+    mode "run": first call interrupted at line event k, then the remaining calls and the first call once more."""
+    import dask
+
+    spec = req["spec"]
+    with dask.config.set(scheduler="synchronous"):
+        w = build_world(spec["world"])
+        ops = spec["ops"]
+        if req["mode"] == "count":
+            _, lines, _ = run_op(w, ops[0]["call"], count=True)
+            return {"lines": lines}
+        pristine, pids = snap_world(w)
+        res = {"outs": [], "world": None}
+        seq = [(ops[0]["call"], req["k"])] + [(o["call"], None) for o in ops[1:]] + [(ops[0]["call"], None)]
+        for j, (call, k) in enumerate(seq):
+            out, _, fired = run_op(w, call, inject_k=k)
+            res["outs"].append(["injected" if "injected" in out else core.digest(out),
+                                "ok" if "ok" in out else ("injected" if "injected" in out else "exc:" + out["exc"])])
+            now, nids = snap_world(w)
+            d = diff_snap(pristine, now)
+            if d is not None and res["world"] is None:
+                res["world"] = [j, d, fired]
+        return res
+
+
+def _cold_check(spec, cnt):
+    import subprocess
+
+    here = os.path.dirname(os.path.dirname(os.path.abspath(__file__)))
+    env = dict(os.environ, XSIM_COLD_CHILD="1")
+
+    def child(req):
+        cp = subprocess.run([sys.executable, os.path.join(here, "check.py"), "c18-cold"], input=json.dumps(req), env=env,
+                            capture_output=True, text=True, timeout=300, cwd=here)
+        if cp.returncode != 0:
+            raise RuntimeError("harness bug: cold child failed: " + cp.stderr[-800:])
+        return json.loads(cp.stdout.strip().splitlines()[-1])
+
+    ops = spec["ops"]
+    lines = child({"mode": "count", "spec": spec})["lines"]
+    if not lines:
+        return None
+    k = 1 + int(ops[0]["fault"]["frac"] * (lines - 1))
+    res = child({"mode": "run", "spec": spec, "k": k})
+    if cnt is not None:
+        cnt.inc("cold_starts")
+        if res["outs"][0][1] == "injected":
+            cnt.inc("cold_fault_injected_fired")
+    name = _opname(ops[0])
+    if res["world"] is not None:
+        j, d, fired = res["world"]
+        return {"fingerprint": f"C18/world-changed/cold-start/{name}/{_where(d)}",
+                "detail": f"fresh interpreter, first call ({name}) interrupted at line event {k} of {lines}: the caller's world "
+                          f"is modified after step {j}: {d}"}
+    # every later call must give what the same call gives as the first call on fresh objects (reference: this,
+    # warm, process - the cold process must not have been left in another state by the interrupted call)
+    later = [o["call"] for o in ops[1:]] + [ops[0]["call"]]
+    for j, call in enumerate(later):
+        ref, _, _ = run_op(build_world(spec["world"]), call)
+        got = res["outs"][j + 1]
+        if got[0] != core.digest(ref):
+            refk = "ok" if "ok" in ref else "exc:" + ref.get("exc", "?")
+            return {"fingerprint": f"C18/history-dependent/cold-start/{name}/{refk}->{got[1]}",
+                    "detail": f"fresh interpreter, first xgcm call ({name}) interrupted at line event {k} of {lines}; call "
+                              f"{j + 1} afterwards ({call.get('name') or call['op']}) gives {got[1]} where the same call issued "
+                              f"first on fresh objects gives {refk}: the interrupted call left state behind outside the "
+                              f"objects it was given"}
+    return None
 
 
 def _execute(spec, cnt=None):
@@ -1058,6 +1132,11 @@ def make_case(seed_i, tier):
             ws["gspec"]["ds_chunks"] = {d: list(worlds.compositions(lrng, n)) for d, n in sizes.items()
                                         if allowed is None or d in allowed}
     spec = {"world": ws, "ops": ops}
+    crng = core.stream(seed_i, "cold")
+    if (ops[0].get("fault") or {}).get("kind") == "inject" and crng.random() < 0.25:
+        # cold start: the interrupted call is the very first xgcm call of a fresh interpreter (crash at an arbitrary
+        # point of start-up work: lazily built module-level tables), the rest of the history follows in that process
+        spec["cold"] = True
     if frng.random() < 0.12:
         # fault kind: warnings escalated to exceptions for the whole history (fresh reference runs included)
         spec["warn"] = "error"
